@@ -1910,7 +1910,12 @@ theorem listing_eq {env : Env} {path : Str} {md : Option Nat} {dirs files : Bool
     (habs : absM env path s = (.ok a, s)) (hdir : isDirP s a = true)
     (hent : entriesOf s a = .ok (rootE, snap))
     (hes : collectEntries snap (listingOpts md dirs files) rootE = .ok es) :
-    listing env path md dirs files s = (.ok (es.map (·.path)), s) := by
+    listing env path md dirs files s =
+      (.ok ((es.filter (fun e => !((dirs || files) && e.link))).map (·.path)), s) := by
+  have hf : (if dirs = true ∨ files = true then es.filter (fun e => !e.link) else es) =
+      es.filter (fun e => !((dirs || files) && e.link)) := by
+    cases dirs <;> cases files <;> simp <;> exact (List.filter_eq_self.mpr (fun _ _ => rfl)).symm
+  rw [← hf]
   unfold listing
   simp only [bind, M.bind, M.get, habs, hdir, Bool.not_true, Bool.false_eq_true, if_false, M.liftO, hent]
   erw [hes]
@@ -1936,17 +1941,19 @@ theorem snapOf_lookup {s : State} {a : FsPath} {snap : Snap} (h : SnapOf s a sna
     | none => rfl
     | some e => rw [← h.1 (k, e) (alLookup_mem h2) hk, h1] at h2; exact h2
 
+/-- the entries the collecting loop keeps: `dirs` / `files` / `all_dirs` / `all_files` skip links -/
 theorem listing_spec {env : Env} {path : Str} (md : Option Nat) (dirs files : Bool) {s : State} {a : FsPath}
     {rootE : Entry} {snap : Snap}
     (hinv : Spec.Inv s) (habs : absM env path s = (.ok a, s)) (hdir : isDirP s a = true)
     (hent : entriesOf s a = .ok (rootE, snap)) (hwf : SnapWf snap)
     (hsnap : SnapOf s a snap) :
     ∃ ps, listing env path md dirs files s = (.ok ps, s) ∧
-      ps = (entriesSpec snap (listingOpts md dirs files) rootE).map (·.path) ∧
+      ps = ((entriesSpec snap (listingOpts md dirs files) rootE).filter
+              (fun e => !((dirs || files) && e.link))).map (·.path) ∧
       ps.Pairwise (fun p q => TreeFs.pathLt p q = true) ∧ ps.Nodup ∧ a ∉ ps ∧
       ∀ p, p ∈ ps ↔ ∃ t e, p = a ++ t ∧ t ≠ [] ∧ t.length ≤ depthCap md ∧
-        alLookup p s.entries = some e ∧ (files = true → e.file = true) ∧
-        (dirs = true → files = false → e.dir = true) := by
+        alLookup p s.entries = some e ∧ (files = true → e.file = true ∧ e.link = false) ∧
+        (dirs = true → files = false → e.dir = true ∧ e.link = false) := by
   have hsub := snapOf_lookup hsnap
   obtain ⟨f1, f2, f3, f4, f5, f6, f7, f8, f9⟩ := listingOpts_facts md dirs files
   -- the root of the traversal
@@ -1963,20 +1970,25 @@ theorem listing_spec {env : Env} {path : Str} (md : Option Nat) (dirs files : Bo
   have hk : KindOk (listingOpts md dirs files) := by
     unfold KindOk; rw [f8, f9]; cases dirs <;> cases files <;> simp
   have hex := collectEntries_pre hwf f1 f3 (Or.inl f2) hk hroot
+  have hsubl : List.Sublist
+      (((entriesSpec snap (listingOpts md dirs files) rootE).filter
+          (fun e => !((dirs || files) && e.link))).map (·.path))
+      ((entriesSpec snap (listingOpts md dirs files) rootE).map (·.path)) :=
+    List.Sublist.map _ List.filter_sublist
   refine ⟨_, listing_eq habs hdir hent hex, rfl, ?_, ?_, ?_, ?_⟩
-  · exact walk_lex hwf _ f3 f4 f5 _ rootE 0 hroot
-  · exact walk_nodup hwf _ _ rootE 0 hroot
+  · exact List.Pairwise.sublist hsubl (walk_lex hwf _ f3 f4 f5 _ rootE 0 hroot)
+  · exact List.Nodup.sublist hsubl (walk_nodup hwf _ _ rootE 0 hroot)
   · intro hmem
-    obtain ⟨y, hy, hya⟩ := List.mem_map.mp hmem
+    obtain ⟨y, hy, hya⟩ := List.mem_map.mp (hsubl.subset hmem)
     have hs := mem_walk_selected hwf _ _ rootE 0 y hroot hy
     simp only [hya, hpa, Nat.sub_self, Nat.add_zero, selected, f6] at hs
     simp at hs
   · intro p
     have hmem : ∀ y, y ∈ entriesSpec snap (listingOpts md dirs files) rootE ↔ _ :=
       fun y => mem_walk_iff hwf (listingOpts md dirs files) _ rootE 0 y hroot (Nat.lt_succ_of_le (pot_le _ _))
-    simp only [List.mem_map]
+    simp only [List.mem_map, List.mem_filter]
     constructor
-    · rintro ⟨y, hy, rfl⟩
+    · rintro ⟨y, ⟨hy, hkeep⟩, rfl⟩
       obtain ⟨hiy, t, ht, hdep, hch, hsel⟩ := (hmem y).mp hy
       simp only [Nat.zero_add, selected, f6, f7, f8, f9, Bool.and_eq_true, decide_eq_true_eq, Bool.or_eq_true,
         Bool.not_eq_true'] at hdep hsel
@@ -1987,17 +1999,21 @@ theorem listing_spec {env : Env} {path : Str} (md : Option Nat) (dirs files : Bo
         · exact absurd h hne
         · exact h
       · rw [← hsub _ (by rw [ht]; exact List.prefix_append _ _)]; exact hiy
-      · intro hf; rcases hsel.1.2 with h | h
+      · intro hf
+        refine ⟨?_, by simpa [hf] using hkeep⟩
+        rcases hsel.1.2 with h | h
         · rw [hf] at h; cases h
         · exact h
-      · intro hd hf; rcases hsel.2 with h | h
+      · intro hd hf
+        refine ⟨?_, by simpa [hd] using hkeep⟩
+        rcases hsel.2 with h | h
         · rw [hd, hf] at h; cases h
         · exact h
     · rintro ⟨t, e, rfl, hne, hlen, hl, hff, hdd⟩
       have hl' : alLookup (a ++ t) snap = some e := by rw [hsub _ (List.prefix_append _ _)]; exact hl
       have hie := inSnap_of_lookup hwf hl'
       have hep := (wf_lookup hwf hl').1
-      refine ⟨e, (hmem e).mpr ⟨hie, t, by rw [hep, hpa], Or.inr (by rw [f7]; simpa using hlen), ?_, ?_⟩, hep⟩
+      refine ⟨e, ⟨(hmem e).mpr ⟨hie, t, by rw [hep, hpa], Or.inr (by rw [f7]; simpa using hlen), ?_, ?_⟩, ?_⟩, hep⟩
       · intro t1 n t2 ht
         obtain ⟨pe, h1, h2⟩ := chain_of_inv hinv hl t1 n t2 ht
         rw [hpa]
@@ -2010,12 +2026,17 @@ theorem listing_spec {env : Env} {path : Str} (md : Option Nat) (dirs files : Bo
           | cons _ _ => simp
         · cases hf : files
           · exact Or.inl rfl
-          · exact Or.inr (hff hf)
+          · exact Or.inr (hff hf).1
         · cases hd : dirs
           · left; simp
           · cases hf : files
-            · exact Or.inr (hdd hd hf)
+            · exact Or.inr (hdd hd hf).1
             · left; simp
+      · cases hf : files
+        · cases hd : dirs
+          · simp
+          · simp [(hdd hd hf).2]
+        · simp [(hff hf).2]
 /-! ### packaged for the property file -/
 
 /-- every option combination: no path twice, and only visited entries (snapshot entries below the
@@ -2062,11 +2083,12 @@ theorem spec_filter_respected {snap : Snap} (hwf : SnapWf snap) (o : Opts) {root
     · rw [hd] at h; cases h
     · exact h
 
+/-- every listed path answers the matching query: `files` / `all_files` list only paths with
+    `is_file`, `dirs` / `all_dirs` only paths with `is_dir` (no hypothesis about links any more) -/
 theorem listing_agrees {env : Env} {path : Str} (md : Option Nat) (dirs files : Bool) {s : State} {a : FsPath}
     {rootE : Entry} {snap : Snap} {ps : List FsPath}
     (hinv : Spec.Inv s) (habs : absM env path s = (.ok a, s)) (hdir : isDirP s a = true)
     (hent : entriesOf s a = .ok (rootE, snap)) (hwf : SnapWf snap) (hsnap : SnapOf s a snap)
-    (hnolink : ∀ kv ∈ s.entries, a <+: kv.1 → kv.2.link = false)
     (h : listing env path md dirs files s = (.ok ps, s)) :
     ∀ p ∈ ps, ∃ e, alLookup p s.entries = some e ∧
       (files = true → (e.file && !e.link) = true) ∧ (dirs = true → files = false → isDirP s p = true) := by
@@ -2076,8 +2098,50 @@ theorem listing_agrees {env : Env} {path : Str} (md : Option Nat) (dirs files : 
   subst this
   intro p hp
   obtain ⟨t, e, rfl, _, _, hl, hf, hd⟩ := (h6 p).mp hp
-  have hnl := hnolink (a ++ t, e) (alLookup_mem hl) (List.prefix_append _ _)
-  simp only [] at hnl
-  refine ⟨e, hl, fun h => by simp [hf h, hnl], fun h h' => by simp [isDirP, hl, hd h h', hnl]⟩
+  refine ⟨e, hl, fun h => by simp [(hf h).1, (hf h).2], fun h h' => by simp [isDirP, hl, (hd h h').1, (hd h h').2]⟩
+
+/-- the converse: every path strictly below `a` within the depth limit that answers the query is listed -/
+theorem listing_complete {env : Env} {path : Str} (md : Option Nat) (dirs files : Bool) {s : State} {a : FsPath}
+    {rootE : Entry} {snap : Snap} {ps : List FsPath}
+    (hinv : Spec.Inv s) (habs : absM env path s = (.ok a, s)) (hdir : isDirP s a = true)
+    (hent : entriesOf s a = .ok (rootE, snap)) (hwf : SnapWf snap) (hsnap : SnapOf s a snap)
+    (h : listing env path md dirs files s = (.ok ps, s)) :
+    ∀ t e, t ≠ [] → t.length ≤ depthCap md → alLookup (a ++ t) s.entries = some e →
+      (files = true → (e.file && !e.link) = true) → (dirs = true → files = false → isDirP s (a ++ t) = true) →
+      a ++ t ∈ ps := by
+  obtain ⟨ps', h1, _, _, _, _, h6⟩ := listing_spec md dirs files hinv habs hdir hent hwf hsnap
+  rw [h] at h1
+  have : ps = ps' := by injection h1 with h1 _; injection h1
+  subst this
+  intro t e hne hlen hl hf hd
+  refine (h6 _).mpr ⟨t, e, rfl, hne, hlen, hl, ?_, ?_⟩
+  · intro hf'; simpa using hf hf'
+  · intro hd' hf'
+    have := hd hd' hf'
+    simpa [isDirP, hl] using this
+
+/-- both directions at once: the listed paths are exactly the paths strictly below `a` within the depth
+    limit that exist and answer the matching query (`is_file`: `file && !link`, `is_dir`: `isDirP`) -/
+theorem listing_agrees_iff {env : Env} {path : Str} (md : Option Nat) (dirs files : Bool) {s : State} {a : FsPath}
+    {rootE : Entry} {snap : Snap} {ps : List FsPath}
+    (hinv : Spec.Inv s) (habs : absM env path s = (.ok a, s)) (hdir : isDirP s a = true)
+    (hent : entriesOf s a = .ok (rootE, snap)) (hwf : SnapWf snap) (hsnap : SnapOf s a snap)
+    (h : listing env path md dirs files s = (.ok ps, s)) :
+    ∀ p, p ∈ ps ↔ ∃ t e, p = a ++ t ∧ t ≠ [] ∧ t.length ≤ depthCap md ∧ alLookup p s.entries = some e ∧
+      (files = true → (e.file && !e.link) = true) ∧ (dirs = true → files = false → isDirP s p = true) := by
+  obtain ⟨ps', h1, _, _, _, _, h6⟩ := listing_spec md dirs files hinv habs hdir hent hwf hsnap
+  rw [h] at h1
+  have : ps = ps' := by injection h1 with h1 _; injection h1
+  subst this
+  intro p
+  rw [h6]
+  constructor
+  · rintro ⟨t, e, rfl, hne, hlen, hl, hf, hd⟩
+    exact ⟨t, e, rfl, hne, hlen, hl, fun h => by simp [(hf h).1, (hf h).2],
+      fun h h' => by simp [isDirP, hl, (hd h h').1, (hd h h').2]⟩
+  · rintro ⟨t, e, rfl, hne, hlen, hl, hf, hd⟩
+    refine ⟨t, e, rfl, hne, hlen, hl, fun h => by simpa using hf h, fun h h' => ?_⟩
+    have := hd h h'
+    simpa [isDirP, hl] using this
 
 end Rivia.Lemmas.Walk
